@@ -20,7 +20,9 @@ import (
 	cidlink "github.com/ipld/go-ipld-prime/linking/cid"
 	"github.com/ipld/go-ipld-prime/node/basicnode"
 	"github.com/libp2p/go-libp2p/core/crypto"
+	mbase "github.com/multiformats/go-multibase"
 	"github.com/multiformats/go-multihash"
+	"github.com/multiformats/go-varint"
 
 	"github.com/ucan-wg/go-ucan/did"
 	"github.com/ucan-wg/go-ucan/did/didtest"
@@ -59,7 +61,21 @@ type world struct {
 	hookErr    error // result of the identity-hook entry point for the last validation with hook "none"
 	hookRan    bool
 	links      map[string]*matLink
-	render     int // how the abstract command letters are written (cmdRenderings)
+	render     int             // how the abstract command letters are written (cmdRenderings)
+	keyless    map[string]bool // principals written as did:key identifiers that parse but hold no usable key
+}
+
+// keylessDID: a did:key the parser accepts (known multicodec) whose key material cannot be a key (an Ed25519 key one
+// byte short): a principal is its identifier - two different identifiers are two principals whether or not a key can
+// be extracted from them.
+func keylessDID(name string) (did.DID, error) {
+	material := make([]byte, 31)
+	copy(material, "keyless-principal-"+name)
+	text, err := mbase.Encode(mbase.Base58BTC, append(varint.ToUvarint(0xed), material...))
+	if err != nil {
+		return did.Undef, err
+	}
+	return did.Parse("did:key:" + text)
 }
 
 // cmdRenderings: the specification's commands are sequences of abstract characters; the rules (segment-wise
@@ -116,6 +132,15 @@ func newWorld(seed int64, algs []string) *world {
 
 func (w *world) principal(name string) (*principal, error) {
 	if p, ok := w.principals[name]; ok {
+		return p, nil
+	}
+	if w.keyless[name] {
+		id, err := keylessDID(name)
+		if err != nil {
+			return nil, err
+		}
+		p := &principal{name: name, id: id, alg: "keyless"}
+		w.principals[name] = p
 		return p, nil
 	}
 	alg := w.algs[w.rng.Intn(len(w.algs))]
@@ -253,7 +278,15 @@ func init() {
 	policyCatalogue["[]"] = append(policyCatalogue["[]"], `["==", ".k", `+lk("c1v")+`]`, `["==", ".k", `+lk("c1z")+`]`, `["==", ".k", `+lk("c2")+`]`, `["like", ".r", "*aaaa*"]`)
 	policyCatalogue["[0]"] = append(policyCatalogue["[0]"], `["like", ".r", "*aa0"]`, `["like", ".r", "*a0"]`)
 	policyCatalogue["[1]"] = append(policyCatalogue["[1]"], `["like", ".r", "a*aa1"]`, `["like", ".r", "*aa1"]`)
-	policyCatalogue["[2]"] = append(policyCatalogue["[2]"], `["like", ".r", "*aa2"]`)
+	policyCatalogue["[2]"] = append(policyCatalogue["[2]"], `["like", ".r", "*aa2"]`,
+		// a conjunction INSIDE a disjunction stays a conjunction (its operands are not operands of the disjunction)
+		`["or", [["and", [["==", ".x", 0], ["==", ".s", "v1"]]], ["==", ".x", 2]]]`)
+	policyCatalogue["[0 1]"] = append(policyCatalogue["[0 1]"], `["and", [["or", [["==", ".x", 0], ["==", ".x", 1]]], ["<", ".x", 2]]]`,
+		`["or", [["and", [["==", ".x", 0], ["==", ".s", "v0"]]], ["and", [["==", ".x", 1], ["like", ".s", "*1"]]], ["and", [["==", ".x", 2], ["==", ".s", "nope"]]]]]`)
+	// == on lists: same length, same elements - a prefix is not the list
+	policyCatalogue["[]"] = append(policyCatalogue["[]"], `["==", ".l", [0]]`, `["==", ".l", [1, 9, 9]]`, `["==", ".e", [1]]`, `["==", ".l", []]`, `["==", ".m", {"k": 1, "j": 2}]`)
+	policyCatalogue["[1]"] = append(policyCatalogue["[1]"], `["==", ".l", [1, 9]]`, `["not", ["or", [["==", ".l", [0, 9]], ["==", ".l", [2, 9]], ["==", ".l", [1]]]]]`)
+	policyCatalogue["[0 1 2]"] = append(policyCatalogue["[0 1 2]"], `["==", ".e", []]`, `["not", ["==", ".l", [9]]]`)
 }
 
 // catalogueSelfCheck evaluates every catalogue statement on every argument point with the real
@@ -385,6 +418,13 @@ func (w *world) link(l absLink, now int) (*matLink, error) {
 	if err != nil {
 		return nil, fmt.Errorf("delegation.New: %w", err)
 	}
+	if iss.priv == nil {
+		// a keyless issuer cannot seal: the delegation exists as an object only (a loader may hand out such objects)
+		h, _ := multihash.Sum([]byte(k), multihash.SHA2_256, -1)
+		m := &matLink{tok: tok, dec: tok, sealed: nil, id: cid.NewCidV1(cid.DagCBOR, h), text: text}
+		w.links[k] = m
+		return m, nil
+	}
 	sealed, id, err := tok.ToSealed(iss.priv)
 	if err != nil {
 		return nil, fmt.Errorf("ToSealed (%s): %w", iss.alg, err)
@@ -447,6 +487,7 @@ func (w *world) validateReal(c *chainCase, variant int) (allowed bool, stage str
 	var prf []cid.Cid
 	ml := mapLoader{}
 	cw := container.NewWriter()
+	unsealedLinks := false
 	for i, l := range c.Links {
 		if l.Missing {
 			// the reference cannot be loaded: a CID nobody knows, or (two times out of three) a CID of another form over
@@ -456,7 +497,9 @@ func (w *world) validateReal(c *chainCase, variant int) (allowed bool, stage str
 			if m, err := w.link(l2, c.Now); err == nil && (variant+i)%3 != 0 {
 				prf = append(prf, aliasCid(m.id, variant/3+i))
 				ml[m.id] = m.dec
-				cw.AddSealed(m.id, m.sealed)
+				if m.sealed != nil {
+					cw.AddSealed(m.id, m.sealed)
+				}
 			} else {
 				prf = append(prf, missingCid(i))
 			}
@@ -472,7 +515,11 @@ func (w *world) validateReal(c *chainCase, variant int) (allowed bool, stage str
 		} else {
 			ml[m.id] = m.dec
 		}
-		cw.AddSealed(m.id, m.sealed)
+		if m.sealed != nil {
+			cw.AddSealed(m.id, m.sealed)
+		} else {
+			unsealedLinks = true
+		}
 	}
 	var loader delegation.Loader = ml
 	switch variant % 11 {
@@ -481,7 +528,7 @@ func (w *world) validateReal(c *chainCase, variant int) (allowed bool, stage str
 	case 10:
 		loader = panicLoader{ml}
 	}
-	if variant%8 == 7 {
+	if variant%8 == 7 && !unsealedLinks {
 		var data []byte
 		var rd container.Reader
 		switch (variant / 8) % 2 {
@@ -544,7 +591,7 @@ func (w *world) validateReal(c *chainCase, variant int) (allowed bool, stage str
 	if err != nil {
 		return false, "", fmt.Errorf("invocation.New: %w", err)
 	}
-	if variant%4 >= 2 {
+	if variant%4 >= 2 && iss.priv != nil {
 		sealed, _, err := inv.ToSealed(iss.priv)
 		if err != nil {
 			return false, "", fmt.Errorf("invocation ToSealed: %w", err)
@@ -638,6 +685,8 @@ func chainReplay(prop string) replayFn {
 			}
 		}
 		ws[3].algs = fastAlgs
+		// another world writes two of the principals as identifiers that hold no usable key
+		ws[1].keyless = map[string]bool{"B": true, "M": true, "X": true, "C": true}
 		if bad := catalogueSelfCheck(); len(bad) > 0 && (prop == "C03" || prop == "C05") {
 			for _, b := range bad {
 				rep.violation(map[string]any{"catalogue": b}, "catalogue statement has its stated acceptance set", b,
@@ -1215,6 +1264,7 @@ func stmtFromJSON(x any) (stmt, error) {
 		return stmt{}, fmt.Errorf("not a statement: %v", x)
 	}
 	op, _ := l[0].(string)
+	var litOf func(v any) ([]any, error)
 	lit := func(v any) ([]any, error) {
 		switch t := v.(type) {
 		case float64:
@@ -1241,9 +1291,35 @@ func stmtFromJSON(x any) (stmt, error) {
 					return []any{"link", name}, nil
 				}
 			}
+			// a map literal (keys in sorted order: the order is not part of the value)
+			keys := make([]string, 0, len(t))
+			for k := range t {
+				keys = append(keys, k)
+			}
+			sort.Strings(keys)
+			es := []any{}
+			for _, k := range keys {
+				ev, err := litOf(t[k])
+				if err != nil {
+					return nil, err
+				}
+				es = append(es, []any{toAny(stringToCps(k)), ev})
+			}
+			return []any{"map", es}, nil
+		case []any:
+			vs := []any{}
+			for _, e := range t {
+				ev, err := litOf(e)
+				if err != nil {
+					return nil, err
+				}
+				vs = append(vs, ev)
+			}
+			return []any{"list", vs}, nil
 		}
 		return nil, fmt.Errorf("unsupported literal %v", v)
 	}
+	litOf = lit
 	switch op {
 	case "==", "<", "<=", ">", ">=":
 		sel, _ := l[1].(string)
